@@ -334,19 +334,26 @@ Section Proofs.
     fin_new R.
   Qed.
 
-  Lemma step_insert_aligned R st k pos j st' r :
-    st_aligned R st -> do_insert V J jeqb quirks_off st k pos j = (st', r) -> st_aligned R st' /\ res_aligned R r.
+  Lemma convert_anon_off st h o :
+    convert_anon V J jeqb vj cv fmt_to cv_iter quirks_off st h o =
+    (st, Some (from_jds 1 (fmt_to (o_fmt _ _ o)) (map_jdv J cv (o_jd _ _ o)))).
+  Proof. reflexivity. Qed.
+
+  Lemma converted_aligned R o :
+    Aligned R o -> o_scale _ _ o = 0 -> Aligned R (from_jds 1 (fmt_to (o_fmt _ _ o)) (map_jdv J cv (o_jd _ _ o))).
   Proof.
-    intros HA. unfold do_insert. destruct (getobj st k) as [[ha a]|] eqn:Ga.
-    2:{ intros H; inversion H; subst; split; cbn; auto. }
-    destruct (getobj st j) as [[hb b]|] eqn:Gb.
-    2:{ intros H; inversion H; subst; split; cbn; auto. }
-    pose proof (getobj_aligned _ _ _ _ _ HA Ga) as Hoa.
-    pose proof (getobj_aligned _ _ _ _ _ HA Gb) as Hob.
-    destruct (o_scalar _ _ a || negb (o_scale _ _ a =? o_scale _ _ b) || negb (o_fmt _ _ a =? o_fmt _ _ b)) eqn:Ec.
-    { intros H; inversion H; subst; split; cbn; auto. }
-    apply orb_false_elim in Ec as [Ec Ef]. apply orb_false_elim in Ec as [_ Es].
-    apply negb_false_iff, Z.eqb_eq in Ef. apply negb_false_iff, Z.eqb_eq in Es.
+    intros (src & es & HS & Hj & Hv & Hsc & Hsl) E0.
+    unfold C04_TimeArray.from_jds. eapply (mk_aligned _ _ _ _ _ _ src es); [exact HS| |reflexivity|reflexivity].
+    rewrite E0 in Hj. destruct (o_jd _ _ o); cbn in *.
+    + destruct es as [|e [|]]; try discriminate. cbn in *. inversion Hj; subst. reflexivity.
+    + subst l. rewrite map_map. apply map_ext. intros a. reflexivity.
+  Qed.
+
+  Lemma ins_aligned R st a b pos st' r :
+    st_aligned R st -> Aligned R a -> Aligned R b -> o_scale _ _ a = o_scale _ _ b -> o_fmt _ _ a = o_fmt _ _ b ->
+    ins V J jeqb quirks_off st a b pos = (st', r) -> st_aligned R st' /\ res_aligned R r.
+  Proof.
+    intros HA Hoa Hob Es Ef. unfold ins.
     destruct (insert_at (o_vals _ _ a) pos (o_vals _ _ b)) as [vs|] eqn:Ev.
     2:{ intros H; inversion H; subst; split; cbn; auto. }
     destruct (insert_at (flat (o_jd _ _ a)) pos (flat (o_jd _ _ b))) as [js|] eqn:Ej.
@@ -361,6 +368,31 @@ Section Proofs.
       rewrite Hva, Hvb, <- Es, <- Ef, Hja, Hjb, <- Es, insert_at_map, insert_at_map, Ee in Ev. cbn in Ev.
       now inversion Ev. }
     fin_new R.
+  Qed.
+
+  Lemma step_insert_aligned R st k pos j st' r :
+    st_aligned R st -> do_insert V J jeqb vj cv fmt_to cv_iter quirks_off st k pos j = (st', r) ->
+    st_aligned R st' /\ res_aligned R r.
+  Proof.
+    intros HA. unfold do_insert. destruct (getobj st k) as [[ha a]|] eqn:Ga.
+    2:{ intros H; inversion H; subst; split; cbn; auto. }
+    destruct (getobj st j) as [[hb b]|] eqn:Gb.
+    2:{ intros H; inversion H; subst; split; cbn; auto. }
+    pose proof (getobj_aligned _ _ _ _ _ HA Ga) as Hoa.
+    pose proof (getobj_aligned _ _ _ _ _ HA Gb) as Hob.
+    destruct (o_scalar _ _ a). { intros H; inversion H; subst; split; cbn; auto. }
+    destruct (o_scale _ _ a =? o_scale _ _ b) eqn:Es.
+    - apply Z.eqb_eq in Es. destruct (o_fmt _ _ a =? o_fmt _ _ b) eqn:Ef.
+      2:{ intros H; inversion H; subst; split; cbn; auto. }
+      apply Z.eqb_eq in Ef. now apply ins_aligned.
+    - destruct ((o_scale _ _ a =? 1) && (o_scale _ _ b =? 0) && negb (o_scalar _ _ b)) eqn:Ec.
+      2:{ intros H; inversion H; subst; split; cbn; auto. }
+      apply andb_prop in Ec as [Ec _]. apply andb_prop in Ec as [E1 E0].
+      apply Z.eqb_eq in E1. apply Z.eqb_eq in E0.
+      rewrite convert_anon_off.
+      destruct (o_fmt _ _ a =? o_fmt _ _ (from_jds 1 (fmt_to (o_fmt _ _ b)) (map_jdv J cv (o_jd _ _ b)))) eqn:Ef.
+      2:{ intros H; inversion H; subst; split; cbn; auto. }
+      apply Z.eqb_eq in Ef. apply ins_aligned; auto using converted_aligned.
   Qed.
 
   Lemma step_scale_aligned R st k s st' r :
@@ -487,7 +519,9 @@ Section Proofs.
     - unfold do_copy. ext_tac; rewrite new_obj_off in *; ext_tac.
     - unfold do_copy. ext_tac; rewrite new_obj_off in *; ext_tac.
     - unfold do_subset. ext_tac; rewrite new_obj_off in *; ext_tac.
-    - unfold do_insert. ext_tac; rewrite new_obj_off in *; ext_tac.
+    - unfold do_insert, ins. destruct (getobj st k) as [[ha a]|]; [|ext_tac].
+      destruct (getobj st j) as [[hb b]|]; [|ext_tac]. rewrite convert_anon_off.
+      ext_tac; rewrite ?new_obj_off in *; ext_tac.
     - unfold do_scale. cbn [q_side q_cache quirks_off andb]. rewrite ?ref_obj_off.
       ext_tac; rewrite ?new_obj_off, ?ref_obj_off in *; ext_tac.
     - ext_tac.
@@ -541,7 +575,9 @@ Section Proofs.
       repeat match goal with |- context [match ?x with _ => _ end] => destruct x end; rewrite ?new_obj_off; reflexivity.
     - unfold do_subset. rewrite (G k (or_introl eq_refl)).
       repeat match goal with |- context [match ?x with _ => _ end] => destruct x end; rewrite ?new_obj_off; reflexivity.
-    - unfold do_insert. rewrite (G k (or_introl eq_refl)), (G j (or_intror (or_introl eq_refl))).
+    - unfold do_insert, ins. rewrite (G k (or_introl eq_refl)), (G j (or_intror (or_introl eq_refl))).
+      destruct (getobj st k) as [[ha a]|]; [|reflexivity]. destruct (getobj st j) as [[hb b]|]; [|reflexivity].
+      rewrite !convert_anon_off.
       repeat match goal with |- context [match ?x with _ => _ end] => destruct x end; rewrite ?new_obj_off; reflexivity.
     - unfold do_scale. rewrite (G k (or_introl eq_refl)). cbn [q_side q_cache quirks_off andb].
       destruct (getobj st k) as [[h o]|] eqn:Eg; [|reflexivity].
@@ -582,7 +618,9 @@ Section Proofs.
     - unfold do_copy. wf_tac; rewrite new_obj_off in *; wf_tac.
     - unfold do_copy. wf_tac; rewrite new_obj_off in *; wf_tac.
     - unfold do_subset. wf_tac; rewrite new_obj_off in *; wf_tac.
-    - unfold do_insert. wf_tac; rewrite new_obj_off in *; wf_tac.
+    - unfold do_insert, ins. destruct (getobj st k) as [[ha a]|]; [|wf_tac].
+      destruct (getobj st j) as [[hb b]|]; [|wf_tac]. rewrite convert_anon_off.
+      wf_tac; rewrite ?new_obj_off in *; wf_tac.
     - unfold do_scale. cbn [q_side q_cache quirks_off andb]. rewrite ?ref_obj_off.
       wf_tac; rewrite ?new_obj_off, ?ref_obj_off in *; wf_tac.
       apply alias_wf; auto. apply nth_error_Some. congruence.
@@ -797,13 +835,32 @@ Section Proofs.
     - (* Insert *)
       unfold do_insert. rewrite !getobj_erase.
       destruct (getobj st k) as [[ha a]|]; [|now apply sim_err].
-      destruct (getobj st j) as [[hb b]|]; [|now apply sim_err].
+      destruct (getobj st j) as [[hb b]|] eqn:Gb; [|now apply sim_err].
       cbn [o_scalar erase_obj set_sl o_jd o_vals o_fmt o_scale].
-      destruct (o_scalar _ _ a || negb (o_scale _ _ a =? o_scale _ _ b) || negb (o_fmt _ _ a =? o_fmt _ _ b));
-        [now apply sim_err|].
-      destruct (insert_at (o_vals _ _ a) pos (o_vals _ _ b)); [|now apply sim_err].
-      destruct (insert_at (flat (o_jd _ _ a)) pos (flat (o_jd _ _ b))); [|now apply sim_err].
-      apply sim_new; auto.
+      destruct (o_scalar _ _ a); [now apply sim_err|].
+      destruct (o_scale _ _ a =? o_scale _ _ b).
+      + destruct (o_fmt _ _ a =? o_fmt _ _ b); [|now apply sim_err].
+        unfold ins. cbn [o_scalar erase_obj set_sl o_jd o_vals o_fmt o_scale].
+        destruct (insert_at (o_vals _ _ a) pos (o_vals _ _ b)); [|now apply sim_err].
+        destruct (insert_at (flat (o_jd _ _ a)) pos (flat (o_jd _ _ b))); [|now apply sim_err].
+        apply sim_new; auto.
+      + destruct ((o_scale _ _ a =? 1) && (o_scale _ _ b =? 0) && negb (o_scalar _ _ b)) eqn:Ec; [|now apply sim_err].
+        pose proof (shape_getobj _ _ _ _ HS Gb) as Hsh.
+        apply andb_prop in Ec as [_ Eb]. apply negb_true_iff in Eb.
+        rewrite convert_anon_off.
+        unfold convert_anon. cbn [q_cache q_side Qs andb o_scalar erase_obj set_sl o_jd o_vals o_fmt o_scale].
+        rewrite Eb in Hsh. rewrite <- Hsh, Eb. cbn [negb andb]. rewrite andb_false_r, andb_true_r.
+        set (st0 := if cv_iter then match rev (flat (o_jd _ _ b)) with
+                                    | [] => st | j0 :: _ => set_heap_sl st hb (Some (JS j0)) end else st).
+        assert (E0 : erase st0 = erase st)
+          by (unfold st0; destruct cv_iter; auto; destruct (rev (flat (o_jd _ _ b))); auto using erase_set_heap_sl).
+        assert (S0 : shape_ok st0)
+          by (unfold st0; destruct cv_iter; auto; destruct (rev (flat (o_jd _ _ b))); auto using shape_set_heap_sl).
+        destruct (o_fmt _ _ a =? _); [|now apply sim_err].
+        unfold ins. cbn [o_scalar erase_obj set_sl o_jd o_vals o_fmt o_scale].
+        destruct (insert_at (o_vals _ _ a) pos _); [|now apply sim_err].
+        destruct (insert_at (flat (o_jd _ _ a)) pos _); [|now apply sim_err].
+        apply sim_new; auto.
     - (* Scale *)
       unfold do_scale. rewrite getobj_erase. destruct (getobj st k) as [[h o]|] eqn:G; [|now apply sim_err].
       pose proof (shape_getobj _ _ _ _ HS G) as Hsh.
